@@ -68,6 +68,42 @@ impl PartialEq for F64Bits {
 
 #[derive(Debug, Clone, PartialEq, Serialize, Deserialize)]
 pub struct UnitStruct;
+/// Nesting as deep as one likes: sequences in sequences ..
+#[derive(Debug, Clone, PartialEq, Serialize, Deserialize)]
+pub struct DeepSeq(pub Vec<DeepSeq>);
+/// .. and maps in maps.
+#[derive(Debug, Clone, PartialEq, Serialize, Deserialize)]
+pub struct DeepMap {
+    pub next: Option<Box<DeepMap>>,
+}
+impl DeepSeq {
+    pub fn nest(depth: usize) -> Self {
+        let mut v = DeepSeq(vec![]);
+        for _ in 0..depth {
+            v = DeepSeq(vec![v]);
+        }
+        v
+    }
+}
+impl DeepMap {
+    pub fn nest(depth: usize) -> Self {
+        let mut v = DeepMap { next: None };
+        for _ in 0..depth {
+            v = DeepMap { next: Some(Box::new(v)) };
+        }
+        v
+    }
+}
+impl<C> minicbor::Encode<C> for DeepSeq {
+    fn encode<W: minicbor::encode::Write>(&self, e: &mut minicbor::Encoder<W>, ctx: &mut C) -> Result<(), minicbor::encode::Error<W::Error>> {
+        e.encode_with(&self.0, ctx)?.ok()
+    }
+}
+impl<'b, C> minicbor::Decode<'b, C> for DeepSeq {
+    fn decode(d: &mut minicbor::Decoder<'b>, ctx: &mut C) -> Result<Self, minicbor::decode::Error> {
+        d.decode_with(ctx).map(DeepSeq)
+    }
+}
 /// A tuple struct without fields: `deserialize_tuple_struct(_, 0, _)`.
 #[derive(Debug, Clone, PartialEq, Serialize, Deserialize)]
 pub struct TupleS0();
@@ -230,7 +266,10 @@ where
             with_suffix.push(0x00);
             inputs.push((with_suffix, bytes.len()));
         }
-        for d in deviations_up_to_ex(&item, 1, true, false, false).into_iter().skip(1) {
+        // (values of hundreds of nodes: every k-th single deviation, at most ~200 of them)
+        let devs = deviations_up_to_ex(&item, 1, true, false, false);
+        let step = (devs.len() / 200).max(1);
+        for d in devs.into_iter().skip(1).step_by(step) {
             let b = d.to_bytes();
             let l = b.len();
             inputs.push((b, l));
@@ -261,7 +300,9 @@ where
         // inputs for which the bridge may refuse (indefinite tuples / enum maps) but must never return
         // another value: everything indefinite, and every combination of two indefinite containers
         let mut lenient: Vec<Vec<u8>> = vec![all_indefinite(&item).to_bytes()];
-        for d in deviations_up_to_ex(&item, 2, false, true, false).into_iter().skip(1) {
+        let devs = deviations_up_to_ex(&item, if item.nodes() > 64 { 1 } else { 2 }, false, true, false);
+        let step = if item.nodes() > 64 { (devs.len() / 200).max(1) } else { 1 };
+        for d in devs.into_iter().skip(1).step_by(step) {
             lenient.push(d.to_bytes());
         }
         for input in lenient {
@@ -462,6 +503,12 @@ pub fn run_c17(sink: &mut dyn Sink) {
     wrappers(sink, "IpAddr", vec![std::net::IpAddr::V4(std::net::Ipv4Addr::new(10, 0, 0, 1)), std::net::IpAddr::V6(std::net::Ipv6Addr::LOCALHOST)], false);
     wrappers(sink, "SocketAddrV4", vec![std::net::SocketAddrV4::new(std::net::Ipv4Addr::new(1, 2, 3, 4), 65535)], false);
     wrappers(sink, "HrProbe", vec![HrProbe(0), HrProbe(24)], false);
+    // more fixed-size sequences in one document, and deeper nesting, than an 8-bit budget or depth counter holds
+    check_type::<Vec<(u16, u16)>>(sink, "identity", "Vec<(u16,u16)> x 255, 256", [255usize, 256].iter().map(|n| (0..*n).map(|i| (i as u16, 65535 - i as u16)).collect()).collect(), Reframe::Widths, false);
+    check_type::<Vec<[u8; 2]>>(sink, "identity", "Vec<[u8;2]> x 128, 129", [128usize, 129].iter().map(|n| (0..*n).map(|i| [i as u8, 24]).collect()).collect(), Reframe::Widths, false);
+    check_type::<BTreeMap<u16, (u8, TupleS<u8>)>>(sink, "identity", "BTreeMap<u16,(u8,TupleS)> x 130", vec![(0..130u16).map(|i| (i, (i as u8, TupleS(1, 7)))).collect()], Reframe::Widths, false);
+    check_type::<DeepSeq>(sink, "identity", "DeepSeq", [129usize, 257].iter().map(|d| DeepSeq::nest(*d)).collect(), Reframe::Widths, false);
+    check_type::<DeepMap>(sink, "identity", "DeepMap", [129usize, 257].iter().map(|d| DeepMap::nest(*d)).collect(), Reframe::TopContainer, false);
     borrowed_family(sink);
 }
 
@@ -815,9 +862,15 @@ where
         };
         let mut all_ok = true;
         // width-only re-framings must decode on both sides; container re-framings: each side value-or-error
-        let widths: Vec<Item> = deviations_up_to_ex(&item, 2, true, false, false);
+        // (large values - hundreds of nodes - get single deviations only)
+        let big = item.nodes() > 64;
+        let thin = |v: Vec<Item>| -> Vec<Item> {
+            let step = if big { (v.len() / 200).max(1) } else { 1 };
+            v.into_iter().step_by(step).collect()
+        };
+        let widths: Vec<Item> = thin(deviations_up_to_ex(&item, if big { 1 } else { 2 }, true, false, false));
         // every combination of up to three indefinite containers / chunked strings, and everything indefinite
-        let mut framed: Vec<Item> = deviations_up_to_ex(&item, 3, false, true, true).into_iter().skip(1).collect();
+        let mut framed: Vec<Item> = thin(deviations_up_to_ex(&item, if big { 1 } else { 3 }, false, true, true).into_iter().skip(1).collect());
         framed.push(all_indefinite(&item));
         for (k, variant) in widths.iter().map(|x| (true, x)).chain(framed.iter().map(|x| (false, x))) {
             let input = variant.to_bytes();
@@ -1039,6 +1092,10 @@ pub fn run_c18(sink: &mut dyn Sink) {
     shared(sink, "BTreeMap<u8,(u8,u8)>", vec![[(1u8, (2u8, 3u8)), (4, (5, 6))].into_iter().collect::<BTreeMap<_, _>>()]);
     shared(sink, "(Vec<u8>,(u8,),[u8;1])", vec![(vec![1u8, 2], (3u8,), [4u8])]);
     shared(sink, "Option<(u8,Vec<(u8,bool)>)>", vec![Some((1u8, vec![(2u8, true), (3, false)]))]);
+    // more fixed-size sequences in one document, and deeper nesting, than an 8-bit budget or depth counter holds
+    shared(sink, "Vec<(u8,u8)> x 255, 256", [255usize, 256].iter().map(|n| (0..*n).map(|i| (i as u8, 24u8)).collect::<Vec<(u8, u8)>>()).collect());
+    shared(sink, "Vec<[u16;3]> x 128, 129", [128usize, 129].iter().map(|n| (0..*n).map(|i| [i as u16, 0, 65535]).collect::<Vec<[u16; 3]>>()).collect());
+    shared(sink, "DeepSeq", [129usize, 257].iter().map(|d| DeepSeq::nest(*d)).collect());
     // every tuple arity with pairwise different components (comparison is available up to arity 12)
     shared(sink, "tuple5", vec![(1u8, 2u16, 3u32, 4u64, -5i8)]);
     shared(sink, "tuple6", vec![(1u8, 2u16, 3u32, 4u64, -5i8, -6i16)]);
